@@ -193,7 +193,8 @@ func checkC17(c *Ctx, r *Report) {
 					}
 					return b, m(b.X, fa) && m(b.Y, fb) || m(b.X, fb) && m(b.Y, fa)
 				}
-				exempt := regionByEdges(apply, func(cond ssa.Value, val bool) bool {
+				var exemptEdge func(cond ssa.Value, val bool) bool
+				exemptEdge = func(cond ssa.Value, val bool) bool {
 					cond, val = stripNot(cond, val)
 					if !val && isLookupOK(cond, fTorrentControls, 0) {
 						return true // control not found
@@ -201,8 +202,11 @@ func checkC17(c *Ctx, r *Report) {
 					if b, ok := isIdent(cond); ok {
 						return b.Op == token.EQL && !val || b.Op == token.NEQ && val // another dispatcher's control
 					}
-					return false
-				})
+					// `known := ok && ctrl.dispatcher == e.dispatcher`: the false side is
+					// exempt when every way of being false is
+					return phiAll(cond, val, exemptEdge)
+				}
+				exempt := regionByEdges(apply, exemptEdge)
 				for _, ret := range returnsOf(apply) {
 					if exempt[ret.Block()] {
 						continue
@@ -240,21 +244,20 @@ func checkC17(c *Ctx, r *Report) {
 					points = append(points, notifyPoint{nc.Block(), nc})
 				}
 				for _, np := range points {
-					ok := false
-					for _, cf := range dominatingConds(np.blk) {
-						cond, val := stripNot(cf.Cond, cf.Val)
+					ok := guardedBy(np.at, func(cond ssa.Value, val bool) int {
 						b, isB := cond.(*ssa.BinOp)
-						if !isB || !(b.Op == token.EQL && val || b.Op == token.NEQ && !val) {
-							continue
+						if !isB || (b.Op != token.EQL && b.Op != token.NEQ) {
+							return 0
 						}
 						mentionsDisp := func(v ssa.Value, f string) bool {
 							return mentions(v, func(w ssa.Value) bool { return isFieldRef(w, f) }, 5)
 						}
 						const fa, fb = "lib/torrent/scheduler.torrentControl.dispatcher", "lib/torrent/scheduler.dispatcherCompleteEvent.dispatcher"
-						if mentionsDisp(b.X, fa) && mentionsDisp(b.Y, fb) || mentionsDisp(b.X, fb) && mentionsDisp(b.Y, fa) {
-							ok = true
+						if !(mentionsDisp(b.X, fa) && mentionsDisp(b.Y, fb) || mentionsDisp(b.X, fb) && mentionsDisp(b.Y, fa)) {
+							return 0
 						}
-					}
+						return tern((b.Op == token.EQL) == val, 1, -1)
+					})
 					r.Check(ok, r8, apply, "completion notify loop", np.at, "guarded by dispatcher identity",
 						"waiters of the control found by info hash are answered with success without checking that it is the dispatcher that completed: a stale event completes a re-added, incomplete torrent")
 				}
@@ -417,6 +420,36 @@ func checkC17(c *Ctx, r *Report) {
 					}
 				}
 			}
+		}
+		if !ok && fn.Parent() == nil {
+			// a named method handed to Once.Do as a method value: go/ssa wraps it in a
+			// bound closure; every use of the method must be as such an argument
+			uses, onceUses := 0, 0
+			for _, g := range c.FuncsIn(pkgOf(fn)) {
+				if c.isFixture(g) {
+					continue
+				}
+				for _, pcs := range callsIn(g) {
+					if sf := pcs.Instr.Common().StaticCallee(); sf == fn {
+						uses++ // called directly somewhere
+					}
+					if pcs.Callee != "(*sync.Once).Do" {
+						continue
+					}
+					if mc, isMC := pcs.Instr.Common().Args[1].(*ssa.MakeClosure); isMC {
+						if bf, isF := mc.Fn.(*ssa.Function); isF {
+							for _, inner := range callsIn(bf) {
+								if inner.Instr.Common().StaticCallee() == fn {
+									onceUses++
+									onceOwner = g
+								}
+							}
+						}
+					}
+				}
+			}
+			// the call counted inside the bound wrapper is the only allowed direct call
+			ok = onceUses >= 1 && uses <= onceUses
 		}
 		r.Check(ok, r4, fn, "DispatcherComplete call", cs.Instr, "raised under sync.Once", "completion notice raised outside a sync.Once: it can be delivered twice, sending twice on waiter channels")
 		if onceOwner != nil {
